@@ -246,12 +246,36 @@ def big_tau_pairs(ctx):
     return [(a, b, mt, m) for a, b in pairs for mt in (Fr(3, 4), Fr(1), Fr(2)) for m in (Fr(0), Fr(1, 4))]
 
 
+def filter_same_object_oracle(ctx, n_quick=80, n_thorough=1000):
+    """the "other N-1 trains" of the filter are the other list POSITIONS: the same object entered twice
+    (reconciliation off, so the objects are used as given) counts like an equal copy; also [st, st] alone"""
+    r, ps = ctx.rng, ctx.ps
+    rl, g2 = ctx.space.random_lists(n=n_quick if ctx.tier == "quick" else n_thorough)
+    for L in ctx.part(rl):
+        sts = ctx.impl.trains([T(t) for t in L])
+        thr = float(Fr(r.randint(0, 3), 4))
+        for same, copy in (([sts[0], sts[0]] + sts[1:], [sts[0], sts[0].copy()] + sts[1:]),
+                           ([sts[0], sts[0]], [sts[0], sts[0].copy()])):
+            for kwf in (dict(Reconcile=False), dict(Reconcile=False, max_tau=0.25), dict()):
+                x = core.call_impl(lambda: ps.filter_by_spike_sync(same, thr, return_removed_spikes=True, **kwf))
+                y = core.call_impl(lambda: ps.filter_by_spike_sync(copy, thr, return_removed_spikes=True, **kwf))
+                ctx.check()
+                ctx.nontrivial(("sameobj", core.enc(L), thr, len(same), repr(sorted(kwf))))
+                if isinstance(x, core.Err) or not feq(x, y, 0.0):
+                    ctx.violate("a train object entered twice is not treated like an equal copy at another position",
+                                "filter_by_spike_sync", [[T(t) for t in L], Fr(thr), Nat(len(same)), repr(kwf)], expected=y, got=x)
+
+
 @prop("C03")
 def c03(ctx):
     for pairs, g in pairs_for(ctx):
         ctx.corr(sync_cases(pairs, g, (6, 7)), pair_nt)
         ctx.corr([(52, [rc, mt, m, T(a), T(b)]) for a, b in pairs
                   for m in mrts_grid(g)[:2] for mt in maxtau_grid(g)[:2] for rc in (False, True)], pair_nt)
+        # the same profile through the list forms (list of two; longer list + index pair): max_tau and MRTS must arrive
+        ctx.corr([(62, [k % 4 == 1, mt, m, [T(a), T(b)], None] if k % 2 else [False, mt, m, [T(b), T(a), T(b)], [Nat(1), Nat(0)]])
+                  for k, (a, b) in enumerate(pairs[::2]) for m in (Z, Fr(6, g)) for mt in maxtau_grid(g)[1:]],
+                 lambda rid, x: sum(len(t[0]) for t in x[3]) >= 2)
         # the per-spike indicator as the filter uses it: MRTS and max_tau must reach the backend
         # (two-train lists and a third train made of the spikes the two do not share)
         ctx.corr([(70, [False, mt, m, thr, [T(a), T(b)] + ([T(sorted(set(a) ^ set(b)))] if k % 3 == 0 else [])])
@@ -263,6 +287,7 @@ def c03(ctx):
         spec_vs_impl(ctx, [(103, [a, b, Z, ONE, mt, m], 7, [a, b, Z, ONE, mt, m])
                            for a, b in pairs for m in mrts_grid(g)[:3] for mt in maxtau_grid(g)[:2]],
                      "per-spike indicator == pairwise definition")
+    filter_same_object_oracle(ctx, 60, 600)
     big = big_tau_pairs(ctx)
     ctx.corr([(rid, [a, b, Z, ONE, mt, m]) for a, b, mt, m in big for rid in (6, 7)], pair_nt)
     spec_vs_impl(ctx, [(102, [a, b, Z, ONE, mt, m], 6, [a, b, Z, ONE, mt, m]) for a, b, mt, m in big],
@@ -508,12 +533,29 @@ def c05(ctx):
             if not (isinstance(sv, float) and isinstance(pv, float) and core.close(sv, pv)):
                 ctx.violate("%s: MRTS='auto' scalar != average of the MRTS='auto' profile" % name, name + "_distance",
                             [TL, repr(ivf)], expected=pv, got=sv)
+            # ... and for an index selection (whatever pool 'auto' uses, both routes must use the same one)
+            if n >= 3:
+                sel = r.sample(range(n), r.randint(2, n - 1))
+                sv = core.call_impl(lambda: q(lambda: fs(sts, indices=sel, interval=ivf, MRTS='auto', **kw)))
+                pv = core.call_impl(lambda: q(lambda: fp(sts, indices=sel, MRTS='auto', **kw).avrg(ivf)))
+                ctx.check()
+                if not (isinstance(sv, float) and isinstance(pv, float) and core.close(sv, pv)):
+                    ctx.violate("%s: MRTS='auto' with indices: scalar != average of the profile" % name, name + "_distance",
+                                [TL, sel, repr(ivf)], expected=pv, got=sv)
         sv = core.call_impl(lambda: ctx.ps.spike_train_order(sts, MRTS='auto', max_tau=float(mt)))
         pv = core.call_impl(lambda: ctx.ps.spike_train_order_profile(sts, MRTS='auto', max_tau=float(mt)).avrg())
         ctx.check()
         if not (isinstance(sv, float) and isinstance(pv, float) and core.close(sv, pv)):
             ctx.violate("order: MRTS='auto' scalar != average of the MRTS='auto' profile", "spike_train_order",
                         [TL], expected=pv, got=sv)
+        if n >= 3:
+            sel = r.sample(range(n), r.randint(2, n - 1))
+            sv = core.call_impl(lambda: ctx.ps.spike_train_order(sts, indices=sel, MRTS='auto', max_tau=float(mt)))
+            pv = core.call_impl(lambda: ctx.ps.spike_train_order_profile(sts, indices=sel, MRTS='auto', max_tau=float(mt)).avrg())
+            ctx.check()
+            if not (isinstance(sv, float) and isinstance(pv, float) and core.close(sv, pv)):
+                ctx.violate("order: MRTS='auto' with indices: scalar != average of the profile", "spike_train_order",
+                            [TL, sel], expected=pv, got=sv)
     ctx.corr(cases, lambda rid, a: True)
 
 
@@ -573,8 +615,17 @@ def c06(ctx):
     small = ctx.part(small)
     ctx.bump("lists_random", len(lists))
     ctx.bump("lists_small_exhaustive_sampled", len(small))
+    # lists in which one train is a copy of another with every spike 2^-20 later (nearly equal pair profiles
+    # must still be merged breakpoint by breakpoint), and lists with an exact copy
+    near = []
+    for L in lists[:ctx.n(60 if ctx.tier == "quick" else 600)]:
+        if L[0]:
+            jit = [x + Fr(1, 2 ** 20) if x < 1 else x - Fr(1, 2 ** 20) for x in L[0]]
+            near.append([L[0], sorted(set(jit))] + L[1:])
+            near.append([L[0]] + L[1:] + [list(L[0])])
+    ctx.bump("lists_with_near_or_exact_copies", len(near))
     cases = []
-    for L, gg in [(x, g) for x in lists] + [(x, gs) for x in small]:
+    for L, gg in [(x, g) for x in lists] + [(x, gs) for x in small] + [(x, g) for x in near]:
         TL = [T(x) for x in L]
         n = len(L)
         m = r.choice(mrts_grid(gg)[:3])
@@ -969,6 +1020,41 @@ def c08(ctx):
                 if not ok:
                     ctx.violate("mirror relation fails for %s" % key, str(rid), a2, expected=v0, got=v, rid=rid,
                                 base_args=core.enc(args))
+    # a very small time unit with the DEFAULT reconciliation (absolute tolerances must not eat spikes), and
+    # time reversal of values over a sub-interval whose borders sit on spike times (the interval is reflected too)
+    rnd, g = ctx.space.random_pairs(n=300 if ctx.tier == "quick" else 4000)
+    for a, b in ctx.part(rnd):
+        m = r.choice(mrts_grid(g)[:3])
+        mt = r.choice(maxtau_grid(g))
+        ri = r.random() < 0.5
+        A, B = T(a), T(b)
+        k = Fr(1, 2 ** r.choice([20, 24]))
+        f = lambda x: x * k
+        A2, B2 = xf_train(A, f), xf_train(B, f)
+        for key, rid, args, a2 in (("dI", 54, [True, m, None, A, B], [True, m * k, None, A2, B2]),
+                                   ("dS", 55, [True, m, ri, None, A, B], [True, m * k, ri, None, A2, B2]),
+                                   ("sy", 56, [True, mt, m, None, A, B], [True, mt * k, m * k, None, A2, B2]),
+                                   ("order_value", 71, [True, True, mt, m, A, B], [True, True, mt * k, m * k, A2, B2]),
+                                   ("dir", 74, [True, False, mt, m, A, B], [True, False, mt * k, m * k, A2, B2])):
+            v0, v = ctx.call(rid, args), ctx.call(rid, a2)
+            ctx.check()
+            if not feq(v, v0):
+                ctx.violate("scale %s (default Reconcile) changes %s" % (k, key), str(rid), a2, expected=v0, got=v, rid=rid,
+                            base_args=core.enc(args))
+        pts = sorted(set(a + b + [Z, ONE]))
+        if len(pts) >= 3:
+            lo, hi = sorted(r.sample(pts, 2))
+            iv, ivm = [lo, hi], [1 - hi, 1 - lo]
+            Am, Bm = mirror_train(A), mirror_train(B)
+            for key, rid, args, a2 in (("dI", 54, [False, m, iv, A, B], [False, m, ivm, Am, Bm]),
+                                       ("dS", 55, [False, m, ri, iv, A, B], [False, m, ri, ivm, Am, Bm]),
+                                       ("sy", 56, [False, mt, m, iv, A, B], [False, mt, m, ivm, Am, Bm]),
+                                       ("sy-multi", 66, [False, mt, m, iv, [A, B, A], None], [False, mt, m, ivm, [Am, Bm, Am], None])):
+                v0, v = ctx.call(rid, args), ctx.call(rid, a2)
+                ctx.check()
+                if not feq(v, v0):
+                    ctx.violate("mirror relation fails for %s over the sub-interval %s" % (key, core.enc(iv)), str(rid), a2,
+                                expected=v0, got=v, rid=rid, base_args=core.enc(args))
     # the same relations for lists of trains (multivariate profiles and values) and with MRTS='auto'
     # (the automatic threshold moves with the time axis and is the same for the reflected list)
     lists, g = ctx.space.random_lists(n=150 if ctx.tier == "quick" else 2000)
@@ -1226,6 +1312,17 @@ def c09(ctx):
                     objs.append(objs[i].copy())
                     truth.append(list(truth[i]))
                     ops.append(["copy", i])
+                # queries between the operations: integral() / avrg() always describe the current function
+                # (state kept between calls, e.g. a memoised integral, must follow every operation)
+                tgt = len(objs) - 1 if op == "copy" else i
+                expi = float(sum(k_ * integ(e_) for k_, e_ in truth[tgt]))
+                span = float(objs[tgt].x[-1] - objs[tgt].x[0])
+                qq = ctx.impl._quiet
+                gi = core.call_impl(lambda: qq(lambda: float(objs[tgt].integral())))
+                ga = core.call_impl(lambda: qq(lambda: float(objs[tgt].avrg())))
+                if not (isinstance(gi, float) and isinstance(ga, float) and core.close(gi, expi) and core.close(ga, expi / span)):
+                    ctx.violate("integral()/avrg() after %r is not that of the linear combination" % (ops,), kind + " history",
+                                repr(ops), expected=[expi, expi / span], got=[gi, ga], base=core.enc([list(e_) for e_ in exact]))
                 # no two live objects may share memory
                 for p in range(len(objs)):
                     for q in range(p + 1, len(objs)):
@@ -1506,6 +1603,38 @@ def c11(ctx):
                     and feq([i1[0] + i2[0], i1[1] + i2[1]], i3)):
                 ctx.violate("integral of sum != sum of integrals on %r" % (spec,), "df.add/integral", a22,
                             expected=[i1, i2], got=i3)
+    # queries interleaved with add / mul_scalar on the SAME object: integral, average and the (smoothed) plottable
+    # arrays always describe the current profile - compared with a fresh object built from the current arrays
+    import numpy as np
+    DF = ctx.ps.DiscreteFunc
+    qq = ctx.impl._quiet
+    for _ in range(ctx.n(150 if ctx.tier == "quick" else 2000)):
+        d0 = [gen.rand_df(r, 4, 8, edge_events=False) for _ in range(3)]
+        f = DF(*[np.array(core.fl(a), dtype=float) for a in d0[0]])
+        others = [DF(*[np.array(core.fl(a), dtype=float) for a in d]) for d in d0[1:]]
+        log = []
+        for step in range(r.randint(2, 5)):
+            kq = r.choice([0, 1, 2])
+            for phase in (0, 1):
+                fresh = DF(np.array(f.x), np.array(f.y), np.array(f.mp))
+                for what, g_ in (("integral", lambda h: [float(v) for v in h.integral()]),
+                                 ("avrg", lambda h: float(h.avrg())),
+                                 ("integral(iv)", lambda h: [float(v) for v in h.integral((0.25, 0.75))]),
+                                 ("plottable(k=%d)" % kq, lambda h: [a.tolist() for a in h.get_plottable_data(averaging_window_size=kq)])):
+                    a_ = core.call_impl(lambda: qq(lambda: g_(f)))
+                    b_ = core.call_impl(lambda: qq(lambda: g_(fresh)))
+                    ctx.check()
+                    if not feq(a_, b_, 1e-12):
+                        ctx.violate("DiscreteFunc.%s after %r does not describe the current profile" % (what, log), "df query sequence",
+                                    [[list(a) for a in d] for d in d0], expected=b_, got=a_)
+                if phase == 0:
+                    op = r.choice(["add", "add", "mul"])
+                    if op == "add":
+                        f.add(r.choice(others))
+                    else:
+                        f.mul_scalar(r.choice([2.0, 0.5]))
+                    log.append(op)
+        ctx.nontrivial(("c11seq", repr(log), core.enc([[list(a) for a in d] for d in d0])))
     # nearly equal event times (2^-20 apart, same number of entries): one entry per distinct time
     for _ in range(ctx.n(300 if ctx.tier == "quick" else 3000)):
         k = r.randint(1, 4)
@@ -1702,7 +1831,56 @@ def c13(ctx):
                   (66, [True, mt, m, None, HL, None]), (67, [True, m, None, HL, None]), (68, [True, m, ri, None, HL, None]),
                   (69, [True, mt, m, None, HL, None]), (72, [True, True, mt, m, HL, None]), (73, [True, mt, m, HL, None]),
                   (75, [True, True, mt, m, HL, None]), (70, [True, mt, m, Fr(1, 2), HL])]
+        # ... also when `indices` selects a sub-list: the common edges are still those of the WHOLE list
+        if len(HL) >= 3:
+            ix = [Nat(i) for i in r.sample(range(len(HL)), r.randint(2, len(HL) - 1))]
+            cases += [(60, [True, m, HL, ix]), (61, [True, m, ri, HL, ix]), (62, [True, mt, m, HL, ix]), (63, [True, mt, m, HL, ix]),
+                      (64, [True, m, None, HL, ix]), (65, [True, m, ri, None, HL, ix]), (66, [True, mt, m, None, HL, ix]),
+                      (67, [True, m, None, HL, ix]), (68, [True, m, ri, None, HL, ix]), (69, [True, mt, m, None, HL, ix]),
+                      (72, [True, True, mt, m, HL, ix]), (73, [True, mt, m, HL, ix]), (75, [True, True, mt, m, HL, ix])]
+    # targeted: few-spike trains on a narrow interval selected out of a list whose unselected member has much wider
+    # edges (the coincidence window of a spike without neighbours is half the COMMON interval)
+    for _ in range(ctx.n(60 if ctx.tier == "quick" else 600)):
+        lo, hi = Fr(r.randint(2, 3), 8), Fr(r.randint(5, 6), 8)
+        def few():
+            return sorted(set(Fr(r.randint(int(lo * 8), int(hi * 8)), 8) for _ in range(r.randint(1, 2))))
+        HL = [[few(), lo, hi], [few(), lo, hi], [few(), Fr(-r.randint(0, 2)), Fr(r.randint(1, 3))]]
+        r.shuffle(HL)
+        wide = [k_ for k_, t in enumerate(HL) if t[2] - t[1] >= 1][0]
+        ix = [Nat(k_) for k_ in range(3) if k_ != wide]
+        mt, m = Z, Z
+        cases += [(62, [True, mt, m, HL, ix]), (66, [True, mt, m, None, HL, ix]), (69, [True, mt, m, None, HL, ix]),
+                  (63, [True, mt, m, HL, ix]), (72, [True, True, mt, m, HL, ix]), (73, [True, mt, m, HL, ix]),
+                  (64, [True, m, None, HL, ix]), (65, [True, m, False, None, HL, ix])]
     ctx.corr(cases, lambda rid, a: True)
+    # a list may hold the same train OBJECT several times: with reconciliation off the objects are used as given
+    # and the result must equal that for equal copies and the default (reconciled) result
+    sl, g = ctx.space.random_lists(n=100 if ctx.tier == "quick" else 1200)
+    psa = ctx.ps
+    qa = ctx.impl._quiet
+    for L in ctx.part(sl):
+        sts = ctx.impl.trains([T(t) for t in L])
+        same = [sts[0], sts[0]] + sts[1:]
+        copy = [sts[0], sts[0].copy()] + sts[1:]
+        mt = float(r.choice(maxtau_grid(g)))
+        m = float(r.choice(mrts_grid(g)[:3]))
+        ctx.nontrivial(("c13same", core.enc(L), mt, m))
+        for name, fn, kwa in (("isi_profile", psa.isi_profile, {}), ("spike_profile", psa.spike_profile, {}),
+                              ("spike_sync_profile", psa.spike_sync_profile, {"max_tau": mt}),
+                              ("spike_train_order_profile", psa.spike_train_order_profile, {"max_tau": mt}),
+                              ("isi_distance", psa.isi_distance, {}), ("spike_distance", psa.spike_distance, {}),
+                              ("spike_sync", psa.spike_sync, {"max_tau": mt}), ("spike_train_order", psa.spike_train_order, {"max_tau": mt}),
+                              ("isi_distance_matrix", psa.isi_distance_matrix, {}), ("spike_sync_matrix", psa.spike_sync_matrix, {"max_tau": mt}),
+                              ("spike_directionality_values", psa.spike_directionality_values, {"max_tau": mt}),
+                              ("spike_directionality_matrix", psa.spike_directionality_matrix, {"max_tau": mt}),
+                              ("filter_by_spike_sync", lambda s_, **k: psa.filter_by_spike_sync(s_, 0.5, **k), {"max_tau": mt})):
+            x = core.call_impl(lambda: qa(lambda: fn(same, MRTS=m, Reconcile=False, **kwa)))
+            y = core.call_impl(lambda: qa(lambda: fn(copy, MRTS=m, Reconcile=False, **kwa)))
+            z = core.call_impl(lambda: qa(lambda: fn(same, MRTS=m, **kwa)))
+            ctx.check()
+            if not feq(x, y, 0.0) or not feq(x, z):
+                ctx.violate("a train object entered twice: Reconcile=False result differs from that for an equal copy / from the default",
+                            name, [[T(t) for t in L], Fr(mt), Fr(m)], expected=[y, z], got=x)
     # every entry point: messy input == reconciled input with Reconcile=False; inputs untouched
     lists, g = ctx.space.random_lists(n=250 if ctx.tier == "quick" else 3000)
     lists = ctx.part(lists)
@@ -1820,8 +1998,11 @@ def c14(ctx):
         m = r.choice(mrts_grid(g))
         mt = r.choice(maxtau_grid(g))
         ri = r.random() < 0.5
-        iv = r.choice(intervals_for(r, g, 1))
-        ivf = None if iv is None else (float(iv[0]), float(iv[1]))
+        # spikes exactly on the recording edges, and the whole recording given as an explicit interval (list or
+        # tuple): "interval=[t_start, t_end]" is an interval like any other (open: edge spikes do not count)
+        L = [sorted(set(t + ([Z] if r.random() < 0.2 else []) + ([ONE] if r.random() < 0.2 else []))) for t in L]
+        iv = r.choice(intervals_for(r, g, 1) + [[Z, ONE]])
+        ivf = None if iv is None else ((float(iv[0]), float(iv[1])) if r.random() < 0.5 else [float(iv[0]), float(iv[1])])
         sts = ctx.impl.trains([T(t) for t in L])
         ctx.nontrivial(("c14", core.enc(L), m, mt, ri))
         k2 = dict(MRTS=float(m))
@@ -2031,6 +2212,17 @@ def c15(ctx):
             ctx.check(2)
             if not feq(va, ve, 1e-12):
                 ctx.violate("multivariate MRTS='auto' != explicit pooled threshold", name, [L], expected=ve, got=va)
+            # ... independently of the other keywords (reconciliation switched off on valid input, an interval)
+            kwx = dict(Reconcile=False)
+            if name in ("isi_distance", "spike_distance", "spike_sync", "isi_distance_matrix", "spike_distance_matrix",
+                        "spike_sync_matrix") and r.random() < 0.5:
+                kwx["interval"] = (0.25, 0.875)
+            var = core.call_impl(lambda: q(lambda: f(sts, MRTS='auto', **kwx)))
+            ver = core.call_impl(lambda: q(lambda: f(sts, MRTS=auto, **kwx)))
+            ctx.check()
+            if not feq(var, ver, 1e-12):
+                ctx.violate("multivariate MRTS='auto' != explicit pooled threshold with %r" % (sorted(kwx),), name, [L],
+                            expected=ver, got=var)
             if not feq(v0, vn, 0.0):
                 ctx.violate("multivariate MRTS=0 != non-adaptive", name, [L], expected=vn, got=v0)
             # the type of the number does not matter: an integer-typed threshold is that threshold
@@ -2171,6 +2363,31 @@ def c16(ctx):
                 ctx.violate("SPIKE-Sync on an interval counts a pair >= max_tau apart", "spike_sync",
                             [False, mt, m, iv, T(a), T(b)], expected="<= %d/%d" % (ok_cnt, len(inside)), got=v, rid=56)
     ctx.corr(icases, lambda rid, a_: True)
+    # the bound through every list entry point (one max_tau object serves all pairs of the list; the adapters
+    # pass it as float / numpy scalar / int / 0-d array in turn) and repeated calls with the same max_tau object
+    lcases = []
+    ll, gl = ctx.space.random_lists(n=150 if ctx.tier == "quick" else 2000)
+    for L in ctx.part(ll):
+        TL = [T(t) for t in L]
+        mt = r.choice([Fr(1, 16), Fr(1, 8), Fr(1, 4)])
+        m = r.choice(mrts_grid(gl)[:3])
+        lcases += [(62, [False, mt, m, TL, None]), (63, [False, mt, m, TL, None]), (66, [False, mt, m, None, TL, None]),
+                   (69, [False, mt, m, None, TL, None]), (72, [False, True, mt, m, TL, None]), (73, [False, mt, m, TL, None]),
+                   (75, [False, False, mt, m, TL, None]), (70, [False, mt, m, Fr(1, 4), TL])]
+        import numpy as np
+        sts = ctx.impl.trains(TL)
+        for mk in (float, np.float64, np.array):
+            mo = mk(float(mt))
+            for name, f in (("spike_directionality_values", ps.spike_directionality_values),
+                            ("spike_directionality_matrix", ps.spike_directionality_matrix),
+                            ("spike_sync", ps.spike_sync), ("spike_train_order", ps.spike_train_order)):
+                v1 = core.call_impl(lambda: f(sts, max_tau=mo))
+                v2 = core.call_impl(lambda: f(sts, max_tau=mo))
+                ctx.check()
+                if not feq(v1, v2, 0.0) or float(mo) != float(mt):
+                    ctx.violate("two calls with the same max_tau object (%s) differ, or the object was changed" % type(mo).__name__,
+                                name, [TL, mt], expected=v1, got=[v2, float(mo)])
+    ctx.corr(lcases, lambda rid, a_: True)
     # None == 0 through the public API; the bound through the public API
     lists, g = ctx.space.random_lists(n=200 if ctx.tier == "quick" else 3000)
     lists = ctx.part(lists)
@@ -2302,6 +2519,21 @@ def c17(ctx):
         if isinstance(k2, core.Err) or any(not set(b_[0]) <= set(a_[0]) for a_, b_ in zip(kept, k2)):
             ctx.violate("a higher threshold keeps a spike the lower one removed", "filter_by_spike_sync",
                         [False, mt, m, [thr, thr2], TL], expected=kept, got=k2)
+    # MRTS='auto' in the filter is ONE threshold pooled over the list (as in the multivariate profile it is compared with)
+    from pyspike.isi_lengths import default_thresh
+    al, g3 = ctx.space.random_lists(n=120 if ctx.tier == "quick" else 1500)
+    for L in ctx.part(al):
+        sts = ctx.impl.trains([T(t) for t in L])
+        thr = float(Fr(r.randint(0, 3), 4))
+        auto = core.call_impl(lambda: float(default_thresh(sts)))
+        for kwf in (dict(), dict(max_tau=0.5), dict(Reconcile=False)):
+            x = core.call_impl(lambda: ps.filter_by_spike_sync(sts, thr, MRTS='auto', return_removed_spikes=True, **kwf))
+            y = core.call_impl(lambda: ps.filter_by_spike_sync(sts, thr, MRTS=auto, return_removed_spikes=True, **kwf))
+            ctx.check()
+            ctx.nontrivial(("c17auto", core.enc(L), thr, repr(sorted(kwf))))
+            if isinstance(x, core.Err) or not feq(x, y, 0.0):
+                ctx.violate("filter with MRTS='auto' != filter with the threshold pooled over the list", "filter_by_spike_sync",
+                            [[T(t) for t in L], Fr(thr), repr(kwf)], expected=y, got=x)
     # the "other N-1 trains" are the other list POSITIONS: the same object entered twice (reconciliation off,
     # so the objects are used as given) counts like an equal copy
     rl, g2 = ctx.space.random_lists(n=80 if ctx.tier == "quick" else 1000)
@@ -2642,6 +2874,22 @@ def c20(ctx):
         cases.append((82, [[Fr(i, nb) for i in range(nb + 1)], sorted(Fr(x) for t in L for x in t)]))
         if bs == 1.0 / nb:
             psth_items.append(([Z, ONE, Nat(nb), sorted(Fr(x) for t in L for x in t)], [xs, ys], None))
+    # psth of a single train, and of trains recorded over different intervals (the bins are those of the FIRST
+    # train's interval; every spike inside it is counted once)
+    for L in lists[:ctx.n(150 if ctx.tier == "quick" else 1500)]:
+        for TLx in ([T(L[0])], [[L[0], Fr(1, 4), Fr(3, 4) + 1], [L[1], Fr(-1), Fr(3)]] if L[0] and min(L[0]) >= Fr(1, 4) else None):
+            if TLx is None:
+                continue
+            stx = ctx.impl.trains(TLx)
+            ts, te = float(TLx[0][1]), float(TLx[0][2])
+            nb = r.choice([1, 2, 4, 8])
+            p = core.call_impl(lambda: ps.psth(stx, (te - ts) / nb))
+            ctx.check()
+            ctx.nontrivial(("c20psth1", core.enc(TLx), nb))
+            inside = sorted(float(x) for t in TLx for x in t[0] if ts <= float(x) <= te)
+            if isinstance(p, core.Err) or len(p[0]) != nb + 1 or p[0][0] != ts or p[0][-1] != te or sum(p[1]) != len(inside):
+                ctx.violate("psth: bins are not those of the first train's interval / a spike inside it is lost", "psth",
+                            [TLx, Nat(nb)], expected=[ts, te, len(inside)], got=p)
     ctx.corr(cases, lambda rid, a: True, functional=True)
     ctx.corr_values("psth", 92, psth_items, functional=True)
     # Poisson generator with recorded draws against the model (cumulative sums below T_end)
